@@ -265,29 +265,81 @@ theorem stable_fs0 (old : Option Bytes) : Stable (fs0 old) old := by
 /-- If the driver's crash enumeration reports a torn state for a call list, that
     call list is not an atomic save (so the print-out `crash point / journal
     prefix / data cut` is a genuine failing crash choice, for ANY call list). -/
-theorem c19_exhibit_sound (ops : List Op) (old : Option Bytes) (new : Bytes) (w : Nat × Nat × Nat)
-    (h : findTorn ops old new = some w) : ¬ AtomicSave ops := by
+theorem exhibit_from (fs : FS) (hst : Stable fs old) (ops : List Op) (new : Bytes) (w : Nat × Nat × Nat)
+    (h : findTornFrom fs ops old new = some w) : ¬ AtomicSave ops := by
   intro hat
   obtain ⟨k, _, hk⟩ := List.exists_of_findSome?_eq_some h
   obtain ⟨⟨j, n⟩, _, hjn⟩ := List.exists_of_findSome?_eq_some hk
-  have := hat (fs0 old) old 1 new k (uniformChoice j n) (stable_fs0 old) (by decide)
+  have := hat fs old 1 new k (uniformChoice j n) hst (by decide)
   simp only [crashedAt] at this
   simp only at hjn
   split at hjn
   · cases hjn
   · rename_i hno; exact hno this
 
-theorem c19_exhibit_sound_durable (ops : List Op) (old : Option Bytes) (new : Bytes) (w : Nat × Nat)
-    (h : findLost ops old new = some w) : ¬ DurableSave ops := by
+theorem exhibit_lost_from (fs : FS) (old : Option Bytes) (hst : Stable fs old) (ops : List Op) (new : Bytes) (w : Nat × Nat)
+    (h : findLostFrom fs ops new = some w) : ¬ DurableSave ops := by
   intro hd
-  unfold findLost at h
+  unfold findLostFrom at h
   obtain ⟨⟨j, n⟩, _, hjn⟩ := List.exists_of_findSome?_eq_some h
-  have := hd (fs0 old) old 1 new ops.length (uniformChoice j n) (stable_fs0 old) (by decide) (Nat.le_refl _)
+  have := hd fs old 1 new ops.length (uniformChoice j n) hst (by decide) (Nat.le_refl _)
   simp only [crashedAt, List.take_length] at this
   simp only at hjn
   split at hjn
   · cases hjn
   · rename_i hno; exact hno this
+
+/-- If the driver's crash enumeration reports a torn state for a call list, that
+    call list is not an atomic save (so the print-out `crash point / journal
+    prefix / data cut` is a genuine failing crash choice, for ANY call list). -/
+theorem c19_exhibit_sound (ops : List Op) (old : Option Bytes) (new : Bytes) (w : Nat × Nat × Nat)
+    (h : findTorn ops old new = some w) : ¬ AtomicSave ops :=
+  exhibit_from (fs0 old) (stable_fs0 old) ops new w h
+
+theorem c19_exhibit_sound_durable (ops : List Op) (old : Option Bytes) (new : Bytes) (w : Nat × Nat)
+    (h : findLost ops old new = some w) : ¬ DurableSave ops :=
+  exhibit_lost_from (fs0 old) old (stable_fs0 old) ops new w h
+
+/-- a quiescent file system with a stale temp file under the temp name is `Stable` -/
+theorem stable_fs0Stale (old : Option Bytes) (stale : Bytes) : Stable (fs0Stale old stale) old := by
+  have hb := stable_fs0 old
+  refine ⟨rfl, ?_, ?_⟩
+  · intro n i h
+    simp only [fs0Stale] at h ⊢
+    split at h
+    · cases h; exact Nat.lt_succ_self _
+    · exact Nat.lt_succ_of_lt (hb.2.1 n i h)
+  · cases old with
+    | none => simp [PathHolds, fs0Stale, fs0, pathName]
+    | some b => exact ⟨0, by simp [fs0Stale, fs0, pathName], by simp [fs0Stale, fs0]⟩
+
+/-- **The stale-temp-file exhibits are real counterexamples too**: the initial
+    state "a temp file of an earlier crashed save already exists under the temp
+    name, with old contents" is a legitimate quiescent state, so a verdict
+    `stale-temp-file-…` refutes atomicity / durability of the call list. -/
+theorem c19_exhibit_sound_stale (ops : List Op) (old : Option Bytes) (new : Bytes) :
+    (∀ w, findTornStale ops old new = some w → ¬ AtomicSave ops) ∧
+    (∀ w, findLostStale ops old new = some w → ¬ DurableSave ops) := by
+  refine ⟨fun w h => ?_, fun w h => ?_⟩
+  · obtain ⟨st, _, hst⟩ := List.exists_of_findSome?_eq_some h
+    exact exhibit_from (fs0Stale old st) (stable_fs0Stale old st) ops new w hst
+  · obtain ⟨st, _, hst⟩ := List.exists_of_findSome?_eq_some h
+    exact exhibit_lost_from (fs0Stale old st) old (stable_fs0Stale old st) ops new w hst
+
+/-- **A deterministic temp name opened without `O_EXCL`/`O_TRUNC` is exhibited**:
+    for the call list `OpenFile(fixed name) ; Write ; Sync ; Close ; Rename ; syncDir`
+    the driver's judge prints a stale-temp verdict (the old tail of the stale temp
+    file survives under the state file's name), with `O_TRUNC` it does not, and the
+    call list regenerated from store.go (`os.CreateTemp`: a fresh name and inode)
+    passes on the same initial states — which is what `c19_atomic` proves for ALL
+    quiescent file systems, stale temp files under any name included. -/
+theorem c19_stale_temp_exhibited :
+    crashVerdict [.openFixed false, .write true, .fsync, .close, .hook, .rename .tmp .path, .setKeep, .fsyncDir] (some [1]) [2, 3]
+      = "viol:stale-temp-file-leaves-neither-old-nor-new:after-6-calls:journal-prefix-1:data-cut-0" ∧
+    crashVerdict [.openFixed true, .write true, .fsync, .close, .hook, .rename .tmp .path, .setKeep, .fsyncDir] (some [1]) [2, 3] = "ok" ∧
+    crashVerdict saveOps (some [1]) [2, 3] = "ok" ∧
+    findTornStale saveOps (some [1]) [2, 3] = none ∧ findLostStale saveOps (some [1]) [2, 3] = none := by
+  decide
 
 /-! ### non-vacuity -/
 
